@@ -400,7 +400,7 @@ pub fn run(ctx: &Ctx) -> (Acc, Report) {
                                 continue;
                             }
                             a.eval();
-                            set_clock_ms(if cname == "V4PresignedExpired" { (t0 + 7200) * 1000 } else { now_ms });
+                            set_clock_ms(if cname == "V4PresignedExpired" { (t0 + 2) * 1000 } else { now_ms }); // (X-Amz-Expires is 1: one second past the window - the sharpest expired URL, not one that any tolerance would also refuse)
                             let cfg = SvcCfg {
                                 keys: has_provider.then(|| vec![(AK.to_owned(), SK.to_owned()), (AK2.to_owned(), SK2.to_owned())]),
                                 access,
@@ -437,7 +437,7 @@ pub fn run(ctx: &Ctx) -> (Acc, Report) {
     });
     let rep = Report {
         level: "exploration",
-        rule: format!("full product: {n_ops} operations (SDK-encoded base request) + the POST form x 19 request classes (anonymous; valid V4 header/presigned, V2 header/presigned; each with a wrong signature; unknown key; a registered key's secret under a spelling variant of its access key - other case, proper prefix, one character more; expired; duplicated, malformed Authorization) x provider {{none, a recording one, the library's own SimpleAuth}} x access hook {{none, allow, deny, deny-by-operation, deny-in-typed-hook, default re-implemented, check inherited from the trait}} x route {{none, match-all, never, match-all-open, match-all with check_access inherited from the trait}} x host parser {{none, single}}. Oracle: reference monitor over the ordered event log of recording S3Auth / S3Access::check / typed hook / S3Route / backend. Every case is non-trivial; distinct by id."),
+        rule: format!("full product: {n_ops} operations (SDK-encoded base request) + the POST form x 19 request classes (anonymous; valid V4 header/presigned, V2 header/presigned; each with a wrong signature; unknown key; a registered key's secret under a spelling variant of its access key - other case, proper prefix, one character more; a presigned URL one second past its window; duplicated, malformed Authorization) x provider {{none, a recording one, the library's own SimpleAuth}} x access hook {{none, allow, deny, deny-by-operation, deny-in-typed-hook, default re-implemented, check inherited from the trait}} x route {{none, match-all, never, match-all-open, match-all with check_access inherited from the trait}} x host parser {{none, single}}. Oracle: reference monitor over the ordered event log of recording S3Auth / S3Access::check / typed hook / S3Route / backend. Every case is non-trivial; distinct by id."),
         exhaustive: true,
         extra: json!({"operations": n_ops, "histories": hist_n, "history_requests_executed": hist_steps, "history_rule": "all sequences of length 1..2 (thorough 3) over 25 requests (four signature schemes x two identities x honest / signed with the other identity's secret x scopes, and an anonymous request) on one service instance, single-threaded, fixed order; each verdict and the identity shown = the reference verdict of that request alone"}),
         assumptions: vec![
